@@ -51,7 +51,9 @@ pub fn conv_case<T: Sc>(rng: &mut Rng, idx: usize) -> (FitCase<T>, Vec<T>, DMatr
     // the FEATURES of a case (number of right-hand sides, constructor, weights) are cycled by the case
     // index, not drawn: every combination - in particular weighted problems under the parallel
     // constructors - occurs in every run; only the values are random
-    let s = if idx % 12 == 7 {
+    let s = if idx % 24 == 13 {
+        n // a SQUARE observation matrix: as many right-hand sides as samples
+    } else if idx % 12 == 7 {
         *rng.pick(&[31usize, 33, 40, 65, 70])
     } else if idx % 2 == 1 {
         rng.range(2, 4)
